@@ -45,10 +45,17 @@ impl BytesMut {
         ensures final(self).view() == old(self).view().subrange(cnt as int, old(self).view().len() as int)
     { unimplemented!() }
 }
-pub struct NomErr { pub incomplete: bool }
-impl NomErr {
-    pub fn is_incomplete(&self) -> (b: bool) ensures b == self.incomplete { self.incomplete }
+// nom::Err as the decoder sees it: "need more input" (with nom's size hint) or a hard error.  The variants are mirrored so
+// that code which matches on them directly (instead of calling is_incomplete()) is decided too.
+pub mod nom {
+    use super::*;
+    pub enum Needed { Unknown, Size(usize) }
+    pub enum Err { Incomplete(Needed), Error(u8), Failure(u8) }
+    impl Err {
+        pub fn is_incomplete(&self) -> (b: bool) ensures b == (self is Incomplete) { match self { Err::Incomplete(_) => true, _ => false } }
+    }
 }
+pub type NomErr = nom::Err;
 pub enum FrameStatus { NeedMore, Invalid, Frame(nat, StructureTag) }
 pub uninterp spec fn frame_status(b: Seq<u8>) -> FrameStatus;
 pub mod lber {
@@ -61,8 +68,10 @@ pub mod lber {
         pub fn parse<'a>(&mut self, input: &'a BytesMut) -> (r: core::result::Result<(&'a [u8], StructureTag), NomErr>)
             ensures
                 match frame_status(input.view()) {
-                    FrameStatus::NeedMore => r matches Err(e) && e.incomplete,
-                    FrameStatus::Invalid => r matches Err(e) && !e.incomplete,
+                    // (which size hint nom attaches to Incomplete is NOT part of the contract: the streaming combinators give
+                    //  Needed::Size(n), the empty-buffer guard gives Needed::Unknown)
+                    FrameStatus::NeedMore => r matches Err(e) && e is Incomplete,
+                    FrameStatus::Invalid => r matches Err(e) && !(e is Incomplete),
                     FrameStatus::Frame(n, t) => r matches Ok((rest, tag)) && tag == t && 0 < n <= input.view().len()
                         && rest@ == input.view().subrange(n as int, input.view().len() as int),
                 }
